@@ -39,7 +39,7 @@ func joinLinesGo(s string, tb, ta bool) string {
 		i = j
 	}
 	hasNL := func(w string) bool { return strings.ContainsAny(w, "\r\n") }
-	tight := func(b byte) bool { return b == '<' || b == '>' || b == 0 }
+	tight := func(b byte) bool { return b == '<' || b == '>' }
 	var out strings.Builder
 	for i, t := range toks {
 		if !t.ws {
@@ -82,7 +82,7 @@ type gluePiece struct {
 	comment bool
 }
 
-var glueTextAtoms = []string{"a", "b", "<", ">", " ", "  ", "\t", "\n", "\r\n", "\n  ", "\r", "\r  ", " \r", "é", "à", "々", "x y", "<b>", "</b>", "w", "http://x.y", "voilà//fin", "о", "м", "一", "\u00a0", "\u3000", "\u2028", "\u0085", "\f", "\v", "\u00a0\n", "\u3000\n  ", "a//b", "//b", "//example.com/x.png", "//"}
+var glueTextAtoms = []string{"a", "b", "<", ">", " ", "  ", "\t", "\n", "\r\n", "\n  ", "\r", "\r  ", " \r", "é", "à", "々", "x y", "<b>", "</b>", "w", "http://x.y", "voilà//fin", "о", "м", "一", "\x00", "a\x00", "\x00b", "\u00a0", "\u3000", "\u2028", "\u0085", "\f", "\v", "\u00a0\n", "\u3000\n  ", "a//b", "//b", "//example.com/x.png", "//"}
 
 func directC15glue(g *G, rep *Report) {
 	n := g.N(2500, 60000)
